@@ -82,6 +82,7 @@ def run(out, tier, seed, pid):
     extra = {}
     if pid == 'C12':
         extra = route_scenes(out, tier, seed)
+        extra.update(prmfile_cases(out))
     out.samples = [{'name': r['name'], 'actions': [e['a'] for e in r['events']][:6]} for r in recs[:2]]
     out.assumptions = ['representative schema of four paths (top scalar, top list, depth-2 scalar, depth-3 scalar) mapped to MSA, MIN_SEP_VALS, SLICING_PRMS.distance_threshold, '
                        'SLICING_PRMS.height_scale_kwargs.min_range; all other leaves are watched through a digest',
@@ -118,6 +119,27 @@ def route_scenes(out, tier, seed):
     prs, inexact = fw.run_pairs(pds)
     fw.judge_pairs(out, prs, ['C12_'])
     return {'pairs': len(prs), 'route_pairs_inexact': len(inexact)}
+
+
+def prmfile_cases(out):
+    """ the parameter-file entry points against the decision tables of spec/PrmFiles.tla (implementation level) """
+    import os, shutil, tempfile
+    from .. import fnjobs
+    tmp = tempfile.mkdtemp(prefix='verif_pf_')
+    try:
+        r = tlc.run_tlc('PrmFiles', 'SPECIFICATION Spec\nCHECK_DEADLOCK FALSE\n', env={'MODE': 'export', 'OUT_DIR': tmp, 'JOB_FILE': 'none'}, workers=1)
+        if r['error'] or r['violated']:
+            raise fw.Machinery('PrmFiles export failed: ' + str(r['error']))
+        cases = json.load(open(os.path.join(tmp, 'cases.json')))
+    finally:
+        shutil.rmtree(tmp, ignore_errors=True)
+    recs = fw.pool_map('harness.paramwork', 'prmfile_case', cases)
+    res = fnjobs.run_jobs([{'cases': recs}], module='PrmFiles', extra_env={'MODE': 'judge', 'OUT_DIR': '/nonexistent'})[0]
+    for clause, keys in res.items():
+        if clause.startswith('I_') and keys:
+            out.drift[clause] = out.drift.get(clause, 0) + len(keys)
+            out.notes.append({clause: [recs[k - 1]['c'] for k in keys[:3]]})
+    return {'prmfile_cases': len(cases)}
 
 
 def replay(pid, path):
